@@ -907,3 +907,217 @@ func advanceOK(liSym string, tot int64, at ssa.Instruction) bool {
 		return ok && strings.HasSuffix(ir.Sym(st.Addr), ".linkIndex")
 	})
 }
+
+// ---- STEPOVER -------------------------------------------------------------------------
+
+func init() {
+	Register(&Rule{
+		ID:    "STEPOVER",
+		Props: []string{"C10"},
+		Min:   2,
+		Doc: "between two neighbouring keys of a node lies the subtree under the link between them: a cursor step that moves a path entry's position by one without descending (position ± 1 stored, no child pushed from that slot) is taken only where exactly the link it steps over was found nil or absent — Link[position+1] for a step forward, Link[position] for a step back — or where that very link is being followed (the descent). Undo stores on an error edge are exempt.",
+		Run: runSTEPOVER,
+	})
+}
+
+func runSTEPOVER(c *Ctx) {
+	P := c.P
+	n := 0
+	for _, fn := range P.Funcs {
+		if fn.Pkg.Pkg.Path() != ir.MastPath || fn.Signature.Recv() == nil || !ir.IsPtrToNamed(fn.Signature.Recv().Type(), "Cursor") || fn.Name() == "String" {
+			continue
+		}
+		for _, b := range fn.Blocks {
+			if ir.IsDead(b) {
+				continue
+			}
+			for _, ins := range b.Instrs {
+				st, ok := ins.(*ssa.Store)
+				if !ok {
+					continue
+				}
+				fa, ok := st.Addr.(*ssa.FieldAddr)
+				if !ok || ir.FieldName(fa.X.Type(), fa.Field) != "linkIndex" {
+					continue
+				}
+				bin, ok := st.Val.(*ssa.BinOp)
+				if !ok || (bin.Op != token.ADD && bin.Op != token.SUB) {
+					continue
+				}
+				k, isK := ir.ConstInt(bin.Y)
+				li, k0, okLi := liPlusK(bin.X)
+				if !isK || k != 1 || !okLi || k0 != 0 || ir.Sym(li.X) != ir.Sym(st.Addr) {
+					continue
+				}
+				// an undo on an error edge restores what a failed step changed
+				undo := false
+				for _, f := range ir.FactsAt(b) {
+					if tv, tnn, isNil := ir.NilTest(f.Cond); isNil && f.Truth == tnn && ir.IsErrorType(tv.Type()) {
+						undo = true
+					}
+				}
+				if undo {
+					continue
+				}
+				n++
+				liSym := ir.Sym(li)
+				liDeps := ir.LoadDeps(li)
+				skipped := int64(0) // Link[position + skipped] is the link stepped over
+				dir := "back"
+				if bin.Op == token.ADD {
+					skipped, dir = 1, "forward"
+				}
+				// the slot Link[li+skipped] of the entry's node
+				isSlot := func(v ssa.Value) bool {
+					ld, ok := ir.ResolveCell(v).(*ssa.UnOp)
+					if !ok || ld.Op != token.MUL {
+						return false
+					}
+					ia, ok := ld.X.(*ssa.IndexAddr)
+					if !ok {
+						return false
+					}
+					if _, f, ok := nodeSliceRoot(ia.X); !ok || f != "Link" {
+						return false
+					}
+					l2, a, ok := liPlusK(ia.Index)
+					return ok && ir.Sym(l2) == liSym && a == skipped
+				}
+				pos := P.InstrPos(st)
+				what := fmt.Sprintf("step %s in %s (position%+d without descent)", dir, ir.FuncName(fn), map[bool]int{true: 1, false: -1}[bin.Op == token.ADD])
+				// coming back up: once an entry was popped, the parent's position names the link that was just walked, and
+				// moving it is not a step over an unvisited link — a pop discharges the obligation like the nil test does
+				isPopEvent := func(i ssa.Instruction) bool {
+					if call, ok := i.(*ssa.Call); ok {
+						if h := ir.Callee(call.Call); h != nil && h != fn && h.Blocks != nil && h.Signature.Recv() != nil && ir.IsPtrToNamed(h.Signature.Recv().Type(), "Cursor") {
+							return allReturnsPass(h, func(j ssa.Instruction) bool {
+								s2, ok := j.(*ssa.Store)
+								if !ok || !isCursorPath(s2.Addr) {
+									return false
+								}
+								_, isSl := s2.Val.(*ssa.Slice)
+								return isSl
+							})
+						}
+						return false
+					}
+					s2, ok := i.(*ssa.Store)
+					if !ok || !isCursorPath(s2.Addr) {
+						return false
+					}
+					_, isSl := s2.Val.(*ssa.Slice)
+					return isSl
+				}
+				killsStep := func(i ssa.Instruction) bool {
+					if isPopEvent(i) {
+						return false
+					}
+					s2, ok := i.(*ssa.Store)
+					return ok && s2 != st && (strings.HasSuffix(ir.Sym(s2.Addr), ".linkIndex") || ir.MayClobber(ir.Sym(s2.Addr), liDeps))
+				}
+				var edgeTo *ssa.BasicBlock
+				slotNilAt := func(use ssa.Instruction, lsym string) bool {
+					slot := func(v ssa.Value) bool {
+						ld, ok := ir.ResolveCell(v).(*ssa.UnOp)
+						if !ok || ld.Op != token.MUL {
+							return false
+						}
+						ia, ok := ld.X.(*ssa.IndexAddr)
+						if !ok {
+							return false
+						}
+						if _, f, ok := nodeSliceRoot(ia.X); !ok || f != "Link" {
+							return false
+						}
+						l2, a, ok := liPlusK(ia.Index)
+						return ok && ir.Sym(l2) == lsym && a == skipped
+					}
+					est := func(fc ir.Fact) bool {
+						// the link stepped over is nil
+						if tv, tnn, isNil := ir.NilTest(fc.Cond); isNil && fc.Truth != tnn && slot(tv) {
+							return true
+						}
+						// or there is no such slot: position+skipped < len(Link) refuted
+						if bb, ok := fc.Cond.(*ssa.BinOp); ok && !fc.Truth && bb.Op == token.LSS {
+							if l2, a, ok := liPlusK(bb.X); ok && ir.Sym(l2) == lsym && a == skipped {
+								if _, dF, ok := lenOfNodeSlice(bb.Y); ok && dF == 1 {
+									return true
+								}
+							}
+						}
+						return false
+					}
+					if ir.FlowFactGen(use, est, isPopEvent, killsStep) {
+						return true
+					}
+					// use is the branch that ends a block: the outcome taken towards edgeTo counts as well
+					if iff, ok := use.(*ssa.If); ok && edgeTo != nil {
+						blk := iff.Block()
+						if blk.Succs[0] != blk.Succs[1] {
+							for _, f2 := range ir.ExpandFacts([]ir.Fact{{Cond: iff.Cond, Truth: blk.Succs[0] == edgeTo, From: blk}}) {
+								if est(f2) {
+									return true
+								}
+							}
+						}
+					}
+					return false
+				}
+				okStep := slotNilAt(st, liSym)
+				// the entry is named through a loop variable (cur := top; for … { pop; cur = top }; cur.linkIndex--):
+				// decide per way into the loop, with the entry each way brings
+				if !okStep {
+					if phi, isPhi := fa.X.(*ssa.Phi); isPhi {
+						all := len(phi.Edges) > 0
+						for i, e := range phi.Edges {
+							pred := phi.Block().Preds[i]
+							last := pred.Instrs[len(pred.Instrs)-1]
+							edgeTo = phi.Block()
+							if !slotNilAt(last, "*"+ir.Sym(e)+".linkIndex") {
+								all = false
+							}
+							edgeTo = nil
+						}
+						// nothing between the loop head and the step invalidates it
+						for _, bb := range fn.Blocks {
+							for _, i2 := range bb.Instrs {
+								if killsStep(i2) && ir.InstrReaches(phi, i2) && ir.InstrReaches(i2, st) {
+									all = false
+								}
+							}
+						}
+						okStep = all
+					}
+				}
+				// or the link is being followed: a load of exactly that slot precedes the store on every path
+				if !okStep {
+					okStep = ir.MustPass(st, func(i ssa.Instruction) bool {
+						call, ok := i.(*ssa.Call)
+						if !ok || !c.Facts.MayLoad[ir.Callee(call.Call)] {
+							return false
+						}
+						for _, a := range call.Call.Args {
+							if isSlot(a) {
+								return true
+							}
+						}
+						return false
+					})
+					if okStep {
+						c.OK(pos, what, "the link at that slot is being followed (descent)", false)
+						continue
+					}
+				}
+				if okStep {
+					c.OK(pos, what, "the link stepped over was found nil or absent on every path", false)
+				} else {
+					c.Violation(fn, pos, "cursor steps over a link it did not look at",
+						fmt.Sprintf("the position moves %s by one inside the node without the link between the two keys (Link[position%+d]) having been found nil: the subtree under it is skipped (keys are missing from the walk)", dir, skipped))
+				}
+			}
+		}
+	}
+	if n == 0 {
+		c.AnchorMissing("in-node steps (linkIndex ± 1) in the Cursor methods")
+	}
+}
